@@ -12,7 +12,7 @@ import Anko.Model.State
 import Anko.Model.BinOp
 
 namespace Anko
-variable [FOps]
+variable [FOps] [Prov]
 
 /-! ### Go function stubs bound by the harness -/
 
@@ -68,12 +68,12 @@ def convertTo (r : RV) : Ty → Option (Except String RV)
 def goRun (name : String) (args : List RV) : List Val × Except String RV :=
   let vs := args.map (·.v)
   match name with
-  | "probe" => (vs, .ok ⟨true, vs.headD .nil⟩)
-  | "id" => ([], .ok ⟨true, vs.headD .nil⟩)
-  | "probe2" => (vs, .ok ⟨true, vs.headD .nil⟩)
-  | "probe3" => (vs, .ok ⟨true, vs.headD .nil⟩)
+  | "probe" => (vs, .ok ⟨Prov.wrap, vs.headD .nil⟩)
+  | "id" => ([], .ok ⟨Prov.wrap, vs.headD .nil⟩)
+  | "probe2" => (vs, .ok ⟨Prov.wrap, vs.headD .nil⟩)
+  | "probe3" => (vs, .ok ⟨Prov.wrap, vs.headD .nil⟩)
   | "vprobe" => (vs, .ok ⟨false, .int (BitVec.ofNat 64 vs.length)⟩)
-  | "fv" => (vs, .ok ⟨true, vs.headD .nil⟩)
+  | "fv" => (vs, .ok ⟨Prov.wrap, vs.headD .nil⟩)
   | "typed" => (vs, .ok ⟨false, vs.headD .nil⟩)
   | "typed2" => (vs, .ok ⟨false, (vs.drop 1).headD .nil⟩)
   | "vtyped" => (vs, .ok ⟨false, .int (BitVec.ofNat 64 vs.length)⟩)
@@ -115,7 +115,7 @@ def getMapIndex (key : Val) (m : List (Val × Val)) : RV :=
     | none => nilRV
 
 /-- element `i` of a `[]interface{}`: an interface-typed operand -/
-def elemRV (v : Val) : RV := ⟨true, v⟩
+def elemRV (v : Val) : RV := ⟨Prov.wrap, v⟩
 
 def opRes (s : St) (r : OpRes) : St :=
   match r with
@@ -191,6 +191,14 @@ def spreadVariadic (lead : List RV) (s2 : St) : (List RV × Bool) × St :=
   | .nil => ((lead ++ [⟨false, .list []⟩], true), s2)      -- nil converts to the zero (nil) slice
   | v => if typeName v == "?" then (([], false), s2.markUnsup "type name of a function value") else
     (([], false), s2.fail ("function wants argument type []interface {} but received type " ++ typeName v))
+
+/-- the argument list a Go function receives: CallSlice hands the spread slice over as the variadic tail -/
+def flatArgs (callSlice : Bool) (args : List RV) : List RV :=
+  if callSlice then
+    (match args.getLast? with
+     | some ⟨_, .list xs⟩ => args.dropLast ++ xs.map elemRV
+     | _ => args)
+  else args
 
 /-- range checks and result of a two-index slice (three-index slices are outside F0) -/
 def sliceResult (item : Val) (len : Nat) (bi ei : Int) (hasCap : Bool) (s : St) : St :=
@@ -561,13 +569,7 @@ def callFn : Nat → Val → List RV → Bool → St → St
        | none => s.markUnsup "unknown stub"
        | some g =>
          -- CallSlice hands the spread slice over as the variadic tail
-         let flat : List RV :=
-           if callSlice then
-             (match args.getLast? with
-              | some ⟨_, .list xs⟩ => args.dropLast ++ xs.map elemRV
-              | _ => args)
-           else args
-         let pr10 := goRun name flat
+         let pr10 := goRun name (flatArgs callSlice args)
          let tr := pr10.1
          let res := pr10.2
          let s1 := { s with trace := s.trace ++ tr.toArray }
@@ -909,7 +911,7 @@ def forMap : Nat → List String → Stmt → List (Val × Val) → St → St
     let cc := pr28.1
     let s := pr28.2
     if cc then { s with rv := nilRV, err := some .interrupt } else
-    let s1 := s.define s.cur (vars.headD "_") ⟨true, k⟩
+    let s1 := s.define s.cur (vars.headD "_") ⟨Prov.wrap, k⟩
     let s1' := match vars with
       | _ :: v2 :: _ => s1.define s1.cur v2 (elemRV v)
       | _ => s1
